@@ -69,6 +69,9 @@ type atRun struct {
 	flush []*undo.BranchUndoLog
 	// stable lock-key text per row over the whole run (C03 oracle 2)
 	keyText map[string]string
+	// foreignGen, when set, produces the foreign writer's statements at the
+	// "after the local commits" point (C09)
+	foreignGen func(jstart int) []ATStmt
 }
 
 // violate records a violation; violations of other properties than the one
@@ -245,6 +248,9 @@ type episodeObs struct {
 	logStart int
 	flush0   int
 	final    simdb.Snapshot
+	beforeP2 simdb.Snapshot // state after phase one (and the foreign writer), before phase two
+	jP2      int            // journal length when beforeP2 was taken
+	foreign  []ATStmt
 }
 
 func (r *atRun) runEpisode(idx int, ep *ATEpisode) *episodeObs {
@@ -278,15 +284,21 @@ func (r *atRun) runEpisode(idx int, ep *ATEpisode) *episodeObs {
 			if ep.StopOnErr && berr != nil {
 				return berr
 			}
-			if len(ep.Foreign) > 0 {
+			foreign := ep.Foreign
+			if r.foreignGen != nil {
+				foreign = r.foreignGen(o.jstart)
+			}
+			if len(foreign) > 0 {
 				// a foreign writer (no global transaction) touches rows after the local commits
 				sim.Park("at-foreign", "foreign writer")
-				for _, st := range ep.Foreign {
-					if _, err := w.Bare.Exec(st.SQL, goArgs(st.Args)...); err != nil {
-						sim.Logf("FOREIGN %s failed: %v", st.SQL, err)
-					}
+				for _, st := range foreign {
+					_, err := w.Bare.Exec(st.SQL, goArgs(st.Args)...)
+					sim.Logf("FOREIGN %s %v -> %v", st.SQL, st.Args, err)
 				}
 			}
+			o.foreign = foreign
+			o.beforeP2 = w.Srv.Snapshot()
+			o.jP2 = w.Srv.JournalLen()
 			for k := 0; k < ep.Between; k++ {
 				// another global transaction commits on rows of its own meanwhile
 				sim.Park("at-between", "")
@@ -422,6 +434,8 @@ func parseFloatOK(s string) (float64, bool) {
 // proxied connections (BEGIN..COMMIT/ROLLBACK or auto-commit statements).
 type localTxn struct {
 	conn      int
+	first     int // index (in the journal slice given to splitLocalTxns) of the first entry
+	last      int // index of the last entry seen
 	entries   []simdb.JEntry
 	committed bool
 	rolled    bool
@@ -438,13 +452,14 @@ func splitLocalTxns(j []simdb.JEntry) []*localTxn {
 		switch e.Kind {
 		case "BEGIN":
 			if e.Err == "" {
-				t := &localTxn{conn: e.Conn}
+				t := &localTxn{conn: e.Conn, first: i}
 				open[e.Conn] = t
 				out = append(out, t)
 			}
 		case "COMMIT":
 			if t := open[e.Conn]; t != nil {
 				t.entries = append(t.entries, e)
+				t.last = i
 				if e.Err == "" || strings.Contains(e.Err, "after the statement was applied") {
 					t.committed = true
 					t.commitSeq = e.Seq
@@ -457,6 +472,7 @@ func splitLocalTxns(j []simdb.JEntry) []*localTxn {
 		case "ROLLBACK":
 			if t := open[e.Conn]; t != nil {
 				t.entries = append(t.entries, e)
+				t.last = i
 				if e.Err == "" {
 					t.rolled = true
 					delete(open, e.Conn)
@@ -465,13 +481,14 @@ func splitLocalTxns(j []simdb.JEntry) []*localTxn {
 		case "EXEC", "QUERY":
 			if t := open[e.Conn]; t != nil {
 				t.entries = append(t.entries, e)
+				t.last = i
 				if e.Class == "insert-undo" && e.Err == "" {
 					ee := e
 					t.undoIns = &ee
 				}
 			} else if len(e.Writes) > 0 || e.Class == "insert" || e.Class == "update" || e.Class == "delete" {
 				// auto-commit statement
-				out = append(out, &localTxn{conn: e.Conn, entries: []simdb.JEntry{e}, committed: e.Err == "", commitSeq: e.Seq, writes: e.Writes})
+				out = append(out, &localTxn{conn: e.Conn, first: i, last: i, entries: []simdb.JEntry{e}, committed: e.Err == "", commitSeq: e.Seq, writes: e.Writes})
 			}
 		case "CLOSE":
 			delete(open, e.Conn)
